@@ -17,6 +17,7 @@ import (
 	"io"
 	"log"
 	"mime/multipart"
+	"net"
 	"net/http"
 	"net/http/httptest"
 	"os"
@@ -204,6 +205,7 @@ type reqSpec struct {
 	fault    *faultSpec
 	uid      string
 	client   string // "", "commit", "abort": go through storage.Client over real HTTP
+	net      bool   // send the (cut) body over a real connection announcing the full length, then close
 }
 
 type scenario struct {
@@ -288,8 +290,23 @@ func (c *chunkWriter) Write(p []byte) (int, error) {
 	return len(p), nil
 }
 
-func deriveEvents(body []byte) (parts []evPart, endErr bool) {
-	mr := multipart.NewReader(bytes.NewReader(body), boundary)
+// ueofReader ends with io.ErrUnexpectedEOF, as net/http does for a body shorter than announced
+type ueofReader struct{ r io.Reader }
+
+func (u ueofReader) Read(p []byte) (int, error) {
+	n, err := u.r.Read(p)
+	if err == io.EOF {
+		err = io.ErrUnexpectedEOF
+	}
+	return n, err
+}
+
+func deriveEvents(body []byte, transportErr bool) (parts []evPart, endErr bool) {
+	var rd io.Reader = bytes.NewReader(body)
+	if transportErr {
+		rd = ueofReader{rd}
+	}
+	mr := multipart.NewReader(rd, boundary)
 	for {
 		p, err := mr.NextPart()
 		if err == io.EOF {
@@ -322,7 +339,7 @@ func deriveEvents(body []byte) (parts []evPart, endErr bool) {
 	}
 }
 
-func encodeEvents(parts []evPart, endErr bool, fault *faultSpec) string {
+func encodeEvents(parts []evPart, endErr bool, fault *faultSpec, cutFlag int) string {
 	var ps []string
 	for _, p := range parts {
 		if !p.isFile {
@@ -351,7 +368,7 @@ func encodeEvents(parts []evPart, endErr bool, fault *faultSpec) string {
 	if endErr {
 		e = "1"
 	}
-	return s + "|" + e + "|" + fault.String()
+	return s + "|" + e + "|" + fault.String() + "|" + strconv.Itoa(cutFlag)
 }
 
 // ---------------------------------------------------------------- server
@@ -508,7 +525,7 @@ func errTag(text string) string {
 		return "fs"
 	case strings.Contains(text, "constraint"):
 		return "db"
-	case strings.Contains(text, "EOF"), strings.Contains(text, "NextPart"):
+	case strings.Contains(text, "EOF"), strings.Contains(text, "NextPart"), strings.Contains(text, "malformed MIME header"):
 		return "body"
 	}
 	return "other:" + hx.HexS(text)
@@ -520,6 +537,31 @@ func (s *server) post(body []byte) response {
 	rec := httptest.NewRecorder()
 	s.mux.ServeHTTP(rec, req)
 	return decodeResponse(rec.Code, rec.Body.Bytes())
+}
+
+// postCut sends the cut body over a real connection: the request announces the full length, the
+// client stops after the cut and closes its sending side.
+func (s *server) postCut(body []byte, fullLen int) response {
+	if s.srv == nil {
+		s.srv = httptest.NewServer(s.mux)
+	}
+	conn, err := net.Dial("tcp", s.srv.Listener.Addr().String())
+	if err != nil {
+		panic(err)
+	}
+	defer conn.Close()
+	conn.SetDeadline(time.Now().Add(10 * time.Second))
+	fmt.Fprintf(conn, "POST /upload HTTP/1.1\r\nHost: verif\r\nContent-Type: multipart/form-data; boundary=%s\r\nContent-Length: %d\r\nConnection: close\r\n\r\n", boundary, fullLen)
+	conn.Write(body)
+	conn.(*net.TCPConn).CloseWrite()
+	resp, err := http.ReadResponse(bufio.NewReader(conn), nil)
+	if err != nil {
+		// the server gave up on the connection without a response
+		return response{status: 500, errTag: "body", id: "-"}
+	}
+	defer resp.Body.Close()
+	b, _ := io.ReadAll(resp.Body)
+	return decodeResponse(resp.StatusCode, b)
 }
 
 func decodeResponse(code int, body []byte) response {
@@ -653,8 +695,17 @@ func runScenario(id int, sc *scenario) {
 	for step := range sc.reqs {
 		rq := &sc.reqs[step]
 		body, regs := buildBody(rq.parts, rq.preamble)
+		fullLen := len(body)
+		cutFlag := 0
 		if rq.cutAt >= 0 && rq.cutAt < len(body) {
 			tags["cut-"+regionOf(regs, rq.cutAt)] = true
+			if rq.net {
+				tags["cut-net"] = true
+				cutFlag = 2
+			} else if rq.cutAt < len(body)-2 {
+				// without the last CRLF the message is still complete
+				cutFlag = 1
+			}
 			body = body[:rq.cutAt]
 		}
 		var evs []evPart
@@ -669,9 +720,9 @@ func runScenario(id int, sc *scenario) {
 			evs = append(evs, evPart{field: rq.client})
 			tags["client-"+rq.client] = true
 		} else {
-			evs, endErr = deriveEvents(body)
+			evs, endErr = deriveEvents(body, cutFlag == 2)
 		}
-		reqEnc = append(reqEnc, encodeEvents(evs, endErr, rq.fault))
+		reqEnc = append(reqEnc, encodeEvents(evs, endErr, rq.fault, cutFlag))
 
 		before := s.snap()
 		nidsBefore := len(s.ffs.ids)
@@ -679,6 +730,8 @@ func runScenario(id int, sc *scenario) {
 		var resp response
 		if rq.client != "" {
 			resp = s.viaClient(rq)
+		} else if cutFlag == 2 {
+			resp = s.postCut(body, fullLen)
 		} else {
 			resp = s.post(body)
 		}
@@ -872,7 +925,7 @@ func goodReq(r *hx.Rand, uid string, nfiles int) reqSpec {
 // number of file-store calls of a fault-free run of the request (events decide the chunking)
 func totalOps(rq *reqSpec, user string) int {
 	body, _ := buildBody(rq.parts, rq.preamble)
-	evs, _ := deriveEvents(body)
+	evs, _ := deriveEvents(body, false)
 	n := 0
 	for _, e := range evs {
 		if !e.isFile {
@@ -995,6 +1048,16 @@ func main() {
 			}
 			rq.cutAt = off
 			g.emit(g.wrap(rq, "cut"))
+			if off < len(body) && (off%4 == b%4 || thorough) {
+				rq2 := rq
+				rq2.uid = g.uid()
+				rq2.parts = append([]partSpec{}, base.parts...)
+				for i := range rq2.parts {
+					rq2.parts[i].content = strings.ReplaceAll(rq2.parts[i].content, "uid: x\n", "uid: "+rq2.uid+"\n")
+				}
+				rq2.net = true
+				g.emit(g.wrap(rq2, "cut"))
+			}
 		}
 	}
 
